@@ -38,6 +38,43 @@ def builtin_chain(args):
     return {"n": len(chain), "fails": fails, "sample": [[x["prompt"], x["act"]["z"], x["act"]["y"], x["obs"]["action"], x["obs"]["cached"]] for x in chain[:6]]}
 
 
+def reentrant_chain(args):
+    """A second request enters run() while the first is still with its executor (the executor stub itself asks the loop about another prompt): every reply
+    must carry a token bound to its own request.  The two replies are judged as the chain inner, outer by the same clauses."""
+    logic, seed_ = args
+    c = {"logic": logic, "threshold": 4, "T": 2, "breaker": False, "cache": False, "prompts": ["p1", "p2"], "vset": "all", "strings": {}}
+    ad = guard.Adapter(c)
+    A, B = "transfer 10 to alice", "transfer 99 to bob"
+    inner = {}
+    with contextlib.redirect_stdout(io.StringIO()):
+        budget = ad.met.ATP_Store(budget=10 ** 6, silent=True)
+        loop = ad.loops.CoherentFeedForwardLoop(budget=budget, gate_logic=ad.logic, enable_circuit_breaker=False, enable_cache=False, silent=True)
+
+        class NestingExecutor(guard.Stub):
+            def express(self, signal):
+                if signal.content == A and "r" not in inner:
+                    inner["r"] = loop.run(B)
+                return super().express(signal)
+        ex, asr = NestingExecutor("stub-executor", budget, ad.types), guard.Stub("stub-assessor", budget, ad.types)
+        ex.verdict, asr.verdict = "EXECUTE", "PERMIT"
+        loop.executor, loop.assessor = ex, asr
+        outer = loop.run(A)
+    chain = []
+    for pid, text, r in (("p2", B, inner.get("r")), ("p1", A, outer)):
+        if r is None:
+            raise base.MachineryError("the nested request did not run")
+        tok = r.approval_token
+        obs = {"blocked": bool(r.blocked), "success": bool(r.success), "action": str(r.action), "token": tok is not None,
+               "tokenOK": tok is None or (tok.request_hash == hashlib.sha256(text.encode()).hexdigest()[:16] and tok.issuer == loop.assessor.name),
+               "cached": bool(r.cached), "dinv": 2, "dspent": 0, "raised": False}
+        chain.append({"act": {"op": "request", "p": pid, "z": "EXECUTE", "y": "PERMIT", "d": 0}, "obs": obs,
+                      "post": {"circuit": "closed", "failures": 0, "sinceFail": guard.NEVER}, "prompt": text})
+    tree = explore.chains_to_tree([chain])
+    r, pf, dr = conform.walk_tree("Trace_GuardLoop", tree, guard.constants(c), "c07r")
+    fails = [(s + " nested-request", w) for (s, w) in conform.fails_from(pf, tree, guard.sig, {"cfg": {"logic": logic}, "from": "re-entrant request"}) if w["clause"] in CLAUSES]
+    return {"n": len(chain), "fails": fails, "sample": [[x["prompt"], x["obs"]["token"], x["obs"]["tokenOK"]] for x in chain]}
+
+
 def run(tier):
     R = base.Run("C07", tier)
     quick = tier == "quick"
@@ -46,11 +83,14 @@ def run(tier):
            "strings": guard.strings(rng), "maxnodes": 400000} for lg in LOGICS]
     cs += [{"logic": lg, "threshold": 4, "T": 2, "breaker": False, "cache": False, "prompts": ["p1"], "vset": "all", "time": False,
             "strings": guard.strings(rng, 1)} for lg in LOGICS]
+    cs += [{"logic": lg, "threshold": 4, "T": 2, "breaker": False, "cache": False, "prompts": ["p1"], "vset": "all", "time": False, "store": st,
+            "strings": guard.strings(rng, 1)} for lg in LOGICS for st in ("starving", "dormant")]
     guard.model_check(R, [dict(c, prompts=["p1"], time=True) for c in cs[:6]])
     depth = 2 if quick else 3
     with cf.ProcessPoolExecutor(max_workers=8) as ex:
         res = list(ex.map(guard.explore_cfg, [(c, depth if c["cache"] else 1, base.seed(), CLAUSES) for c in cs]))
         bres = list(ex.map(builtin_chain, [(lg, base.seed()) for lg in LOGICS]))
+        bres += list(ex.map(reentrant_chain, [(lg, base.seed()) for lg in LOGICS]))
     guard.collect(R, res, [])
     for x in bres:
         R.cov["traces_validated_against_impl"] += 1
